@@ -77,6 +77,13 @@ class Intervals:
         unsigned x % y with y >= 1:  x % y + 1 <= y."""
         out = []
         for a in atoms:
+            if a.op == "call" and isinstance(a.args[0], str) and a.args[0].endswith("::saturating_sub") and len(a.args[1]) == 2:
+                # unsigned saturating_sub(x, y) <= x
+                la, ca = lin(a.args[1][0])
+                d = {a: 1}
+                for p, q in la:
+                    d[p] = d.get(p, 0) - q
+                out.append(("le", frozenset((p, q) for p, q in d.items() if q), -ca))
             if a.op == "bin" and a.args[0] == "Rem" and b is not None:
                 y = a.args[2]
                 yi = self.interval(y, b)
@@ -115,10 +122,12 @@ class Intervals:
                             chain.append(x.args[0])
                             x = x.args[1][0]
                         if chain == [libmodel.INTO_ITER, "core::iter::Iterator::enumerate", "core::slice::<impl [T]>::iter"] and x.op == "ref":
-                            ln = mk("len", x.args[0])
-                            from terms import set_ty, U
-                            set_ty(ln, U)
-                            out.append(("le", frozenset([(a, 1), (ln, -1)]), 1))
+                            ln = self.fa.len_term(x.args[0])
+                            la, ca = lin(ln)
+                            d = {a: 1}
+                            for p, q in la:
+                                d[p] = d.get(p, 0) - q
+                            out.append(("le", frozenset((p, q) for p, q in d.items() if q), 1 - ca))
         return out
 
     def facts(self, b):
@@ -534,9 +543,23 @@ class Intervals:
             return True
         # single-fact linear subsumption
         want = frozenset(atoms)
-        for c in self.item_facts([a for a, q in atoms], b):
+        pool = list(self.item_facts([a for a, q in atoms], b))
+        for c in pool:
             if c[1] == want and c[2] >= k:
                 return True
+        # two-fact chaining (x <= y and y <= z): sums of two available "le" facts
+        les = [c for c in pool if c[0] == "le"] + [c for c, fc in self.facts(b) if c[0] == "le"]
+        # facts about atoms that appear in those facts (one more round of item facts)
+        extra_atoms = {a for c in les for a, q in c[1]}
+        les += [c for c in self.item_facts(list(extra_atoms), b) if c[0] == "le" and c not in les]
+        if len(les) <= 60:
+            for i in range(len(les)):
+                for j in range(i + 1, len(les)):
+                    d = dict(les[i][1])
+                    for a, q in les[j][1]:
+                        d[a] = d.get(a, 0) + q
+                    if frozenset((a, q) for a, q in d.items() if q) == want and les[i][2] + les[j][2] >= k:
+                        return True
         for c, fc in self.facts(b):
             if c[0] == "le" and c[1] == want and c[2] >= k:
                 return True
